@@ -3099,6 +3099,8 @@ class Set(Collection):
     def __delete__(attr, obj):
         throw(NotImplementedError)
     def reverse_add(attr, objects, item, undo_funcs):
+        for obj in objects:
+            if obj._status_ in del_statuses: throw_object_was_deleted(obj)
         undo = []
         cache = item._session_cache_
         objects_with_modified_collections = cache.modified_collections[attr]
